@@ -162,3 +162,62 @@ func Errors() *Profile {
 	return &Profile{Name: "errors", MaxStmts: 5, MaxDepth: 2, Wild: 0, WildOpen: 0, Stress: 0, TemplatePc: 70, NoGoto: true,
 		Templates: []func(g *Gen) []L.Stmt{(*Gen).tplProtected}}
 }
+
+// ---- C05(b) / C11: programs whose protected body is pure (it only computes on its own locals and emits), so that the
+// effect of a fault injected at any instruction boundary is predictable from the fault-free run.
+
+// ErrorsProgram generates a program of the errors profile with the fault prelude; it returns the source pieces and the
+// number of fault sites.
+func ErrorsProgram(g *Gen) *L.Block {
+	return g.Program()
+}
+
+// pureStmts generates statements that touch nothing outside themselves: no variable of the enclosing program is
+// visible, no global is written, no protected call, no coroutine.
+func (g *Gen) pureStmts(n, d int) []L.Stmt {
+	savedVars, savedGlobals, savedFn, savedP := g.vars, g.globals, g.fn, g.P
+	pure := *g.P
+	pure.Templates, pure.TemplatePc, pure.Stress, pure.Wild, pure.WildOpen, pure.NoGoto = nil, 0, 0, 0, 0, false
+	g.P = &pure
+	g.vars, g.globals = nil, nil
+	g.fn = &fnCtx{depth: 1}
+	g.pure++
+	ss := g.stmts(n, d)
+	g.pure--
+	g.vars, g.globals, g.fn, g.P = savedVars, savedGlobals, savedFn, savedP
+	return ss
+}
+
+// BoundaryProgram: prologue; snap; local ok, e = pcall(body); snap; epilogue.  Markers delimit the three parts of the trace.
+func (g *Gen) BoundaryProgram() *L.Block {
+	g.budget = 400
+	var out []L.Stmt
+	out = append(out, emit(str("@PROLOGUE")))
+	out = append(out, local([]string{"keep1", "keep2", "up"}, num(11), str("keep"), num(5)))
+	out = append(out, local1("getup", fn(nil, false, blk(ret(name("up"))))))
+	out = append(out, &L.DoStmt{Body: blk(g.pureStmts(1+g.n(3, "npro"), 2)...)})
+	body := []L.Stmt{emit(str("@BODY"))}
+	body = append(body, g.pureStmts(2+g.n(6, "nbody"), 3)...)
+	body = append(body, emit(str("@BODYEND")), ret(str("ok"), num(2)))
+	bf := fn(nil, false, blk(body...))
+	out = append(out, &L.LocalFuncStmt{Name: "body", Fn: bf})
+	out = append(out, local([]string{"ok", "e"}))
+	out = append(out, callStmt(call(name("snap"), str("B"))))
+	switch g.n(3, "bform") {
+	case 0:
+		out = append(out, &L.AssignStmt{Targets: []L.Expr{name("ok"), name("e")}, Exprs: []L.Expr{call(name("pcall"), name("body"))}})
+	case 1:
+		g.class("boundary:xpcall")
+		out = append(out, &L.AssignStmt{Targets: []L.Expr{name("ok"), name("e")}, Exprs: []L.Expr{call(name("xpcall"), name("body"), fn([]string{"m"}, false, blk(ret(name("m")))))}})
+	default:
+		g.class("boundary:hostpcall")
+		out = append(out, &L.AssignStmt{Targets: []L.Expr{name("ok"), name("e")}, Exprs: []L.Expr{call(name("hostpcall"), name("body"))}})
+	}
+	out = append(out, callStmt(call(name("snap"), str("B"))))
+	out = append(out, emit(str("@EPILOGUE"), name("ok"), call(name("type"), name("e")),
+		bin("or", bin("==", name("e"), str("ok")), bin("and", bin("==", call(name("type"), name("e")), str("string")), bin("~=", call(field(name("string"), "find"), name("e"), str("context canceled"), num(1), &L.TrueExpr{}), &L.NilExpr{}))),
+		name("keep1"), name("keep2"), name("up"), call(name("getup"))))
+	out = append(out, &L.DoStmt{Body: blk(g.pureStmts(1+g.n(3, "nepi"), 2)...)})
+	out = append(out, emit(str("@END"), name("keep1"), call(name("hostf"), num(1), name("keep2"))))
+	return blk(out...)
+}
